@@ -121,11 +121,17 @@ pub fn replay(cases: &[Value], out: &mut TraceOut) {
             let mut chunks = std::collections::VecDeque::new();
             let mut maxwire = 0usize;
             if coding == "identity" {
+                if ex == "mpfield" {
+                    chunks.push_back(Bytes::from_static(b"--PQ\r\ncontent-disposition: form-data; name=\"f\"\r\n\r\n"));
+                }
                 let mut p = 0;
                 for s in &sizes {
                     chunks.push_back(Bytes::copy_from_slice(&wire[p..p + s]));
                     p += s;
                     maxwire = maxwire.max(*s);
+                }
+                if ex == "mpfield" {
+                    chunks.push_back(Bytes::from_static(b"\r\n--PQ--\r\n"));
                 }
             } else {
                 let wc = case["wire_chunk"].as_u64().unwrap_or(1 << 30) as usize;
@@ -146,6 +152,20 @@ pub fn replay(cases: &[Value], out: &mut TraceOut) {
                     .route("/json", web::post().to(|b: web::Json<Value>| async move { HttpResponse::Ok().body(b.to_string().len().to_string()) }))
                     .route("/form", web::post().to(|b: web::Form<FormT>| async move { HttpResponse::Ok().body((b.a.len() + 2).to_string()) }))
                     .route(
+                        "/mpfield/{limit}",
+                        web::post().to(|mut mp: actix_multipart::Multipart, l: web::Path<usize>| async move {
+                            use futures_util::StreamExt as _;
+                            match mp.next().await {
+                                Some(Ok(mut field)) => match field.bytes(*l).await {
+                                    Ok(Ok(b)) => HttpResponse::Ok().body(b.len().to_string()),
+                                    Ok(Err(_)) => HttpResponse::BadRequest().finish(),
+                                    Err(_limit_exceeded) => HttpResponse::PayloadTooLarge().finish(),
+                                },
+                                _ => HttpResponse::BadRequest().finish(),
+                            }
+                        }),
+                    )
+                    .route(
                         "/tbl/{limit}",
                         web::post().to(|p: web::Payload, l: web::Path<usize>| async move {
                             match p.to_bytes_limited(*l).await {
@@ -157,12 +177,14 @@ pub fn replay(cases: &[Value], out: &mut TraceOut) {
                     ),
             )
             .await;
-            let uri = if ex == "tbl" { format!("/tbl/{limit}") } else { format!("/{ex}") };
+            let uri = if ex == "tbl" || ex == "mpfield" { format!("/{ex}/{limit}") } else { format!("/{ex}") };
             let mut rb = test::TestRequest::post().uri(&uri);
             if ex == "form" {
                 rb = rb.insert_header((header::CONTENT_TYPE, "application/x-www-form-urlencoded"));
             } else if ex == "json" {
                 rb = rb.insert_header((header::CONTENT_TYPE, "application/json"));
+            } else if ex == "mpfield" {
+                rb = rb.insert_header((header::CONTENT_TYPE, "multipart/form-data; boundary=PQ"));
             }
             if coding != "identity" {
                 rb = rb.insert_header((header::CONTENT_ENCODING, coding.as_str()));
@@ -183,7 +205,8 @@ pub fn replay(cases: &[Value], out: &mut TraceOut) {
             };
             let c = counter.borrow();
             // decoded bytes pulled: for identity the wire bytes; for coded bodies unknown without a hook -> report the wire side scaled
-            let pulled = if coding == "identity" { c.pulled_wire } else { 0 };
+            // (Field::bytes keeps reading after the limit is exceeded, to advance the multipart stream: no pull clause for it)
+            let pulled = if coding == "identity" && ex != "mpfield" { c.pulled_wire } else { 0 };
             out.emit(json!({"ev":"extract","ex":ex,"limit":limit,"total":total,"declared":declared,"coding":coding,"status":status,
                             "pulled":pulled,"pulled_wire":c.pulled_wire,"wire_total":wire.len(),"maxchunk":maxchunk,"maxwire":maxwire,
                             "held":held,"slack":65536 + 8 * limit.min(1 << 20) + match coding.as_str() { "identity" => 0, "gzip" | "deflate" => 1 << 20, _ => 24 << 20 }}));
